@@ -2286,6 +2286,8 @@ class ProvDocument(ProvBundle):
             return False
 
         # Comparing the documents' bundles
+        if len(self._bundles) != len(other._bundles):
+            return False
         for b_id, bundle in self._bundles.items():
             if b_id not in other._bundles:
                 return False
